@@ -435,7 +435,10 @@ struct EchoHandler : public Http::Handler {
 static void run_c02(long cases) {
     Rng r(g_opts.seed * 5011 + (uint64_t)g_opts.shard);
     Http::Endpoint ep(Address(Ipv4::loopback(), Port(0)));
-    ep.init(Http::Endpoint::options().threads(2).flags(Tcp::Options::ReuseAddr).maxRequestSize(64 * 1024).maxResponseSize(8u << 20));
+    // (read time-outs far away: the server answers a pooled connection that has been idle for the time-out - 60 s by default - with 408 and
+    // closes it; the client would take that for the answer to its next request on that connection, which is C15's recorded finding about
+    // connections closed by the server, not a round-trip matter.  Seen in a thorough run of several minutes under load.)
+    ep.init(Http::Endpoint::options().threads(2).flags(Tcp::Options::ReuseAddr).maxRequestSize(64 * 1024).maxResponseSize(8u << 20).headerTimeout(std::chrono::hours(6)).bodyTimeout(std::chrono::hours(6)));
     ep.setHandler(Http::make_handler<EchoHandler>());
     ep.serveThreaded();
     int port = ep.getPort();
